@@ -259,7 +259,9 @@ func (o *oracles) admit(op Op) bool {
 		if o.state != nil && o.tagByName(r) == nil {
 			return false
 		}
-		if rank(r) >= rank(op.Name) {
+		// C09 also sends updates that would close a reference cycle (the API has
+		// to reject them; a cycle makes the service loop spin)
+		if rank(r) >= rank(op.Name) && o.prop != "C09" {
 			return false
 		}
 	}
